@@ -245,6 +245,9 @@ func CheckC15(run *evid.Run) {
 				case 8:
 					q.Upper = "unknown-lte"
 					q.UpperH = []string{foreignCid(fmt.Sprint(rng.Int63())).String()}
+					if rng.Intn(3) == 0 {
+						q.UpperH = []string{""} // the zero-value (undefined) identifier: held by no log
+					}
 					// an unknown bound among known ones is still an unknown bound
 					for extra := rng.Intn(3); extra > 0; extra-- {
 						q.UpperH = append(q.UpperH, keys[rng.Intn(size)])
@@ -253,6 +256,9 @@ func CheckC15(run *evid.Run) {
 				case 9:
 					q.Upper = "unknown-lt"
 					q.UpperH = []string{foreignCid(fmt.Sprint(rng.Int63())).String()}
+					if rng.Intn(3) == 0 {
+						q.UpperH = []string{""}
+					}
 				}
 				// amount
 				switch rng.Intn(6) {
